@@ -605,6 +605,9 @@ LINKFILE_CASES = [
      {"name": "Here", "type": "1", "selector": "/SB/sub", "needsmerge": True, "num": -1}, "continue"),
     (".cap file naming every field, number last", "/SB/file.txt", ["Name=Cap", "Type=0", "Host=+", "Port=+", "Numb=4"],
      {"selector": "/SB/file.txt", "name": "Cap", "type": "0", "num": 4}, "stop"),
+    ("abstract before the path, a continuation line that starts like a comment", None,
+     ["Name=Community", "Abstract=Where to find us:\\", "#gopher on irc\\", "or the list", "Path=./community", ""],
+     {"name": "Community", "selector": "/SB/community", "needsmerge": True, "ea:ABSTRACT": "Where to find us:\n#gopher on irc\nor the list"}, "continue"),
     ("unparsable number and port are ignored", None, ["Path=/q", "Numb=first", "Host=other.example", "Port=gopher", ""],
      {"selector": "/q", "host": "other.example"}, "continue"),
 ]
